@@ -202,7 +202,18 @@ def seeded(args):
             shutil.rmtree(d, ignore_errors=True)
     cleanup_alt()
     shutil.rmtree(os.path.join(VERIF, "replays"), ignore_errors=True)
-    json.dump({"rows": rows}, open(os.path.join(VERIF, "evidence", "selftest_seeded.json"), "w"), indent=1)
+    out = os.path.join(VERIF, "evidence", "selftest_seeded.json")
+    prev = {}
+    if os.path.exists(out) and flt != "*":
+        try:
+            prev = {r["id"]: r for r in json.load(open(out)).get("rows", [])}
+        except Exception:
+            prev = {}
+    for r in rows:
+        prev[r["id"]] = r
+    rows_all = sorted(prev.values(), key=lambda r: r["id"]) if flt != "*" else rows
+    json.dump({"rows": rows_all, "caught": sum(1 for r in rows_all if r.get("result") == "CAUGHT"), "problems": [r["id"] for r in rows_all if r.get("result") != "CAUGHT"]},
+              open(out, "w"), indent=1)
     return rc
 
 
